@@ -23,6 +23,10 @@ MUT = [
     ('internal/responsestorerer.go', '\t_ = r.cache.Set(responseID, respEntry)\n', '', 'SrcEffects.v'),
     ('roundtripper.go', 'resp.StatusCode != http.StatusNotModified && r.ce.CanStoreResponse(resp, ccReq, ccResp)', 'r.ce.CanStoreResponse(resp, ccReq, ccResp)', 'SrcEffects.v'),
     ('roundtripper.go', 'if !freshness.IsStale || ccReq.OnlyIfCached() {', 'if !freshness.IsStale {', 'SrcEffects.v'),
+    ('internal/varymatcher.go', '!entry.ReceivedAt.Before(entries[best].ReceivedAt)', 'entry.ReceivedAt.After(entries[best].ReceivedAt)', 'SrcVary.v'),
+    ('internal/varymatcher.go', 'case aIsStar && !bIsStar:\n\t\t\treturn 1', 'case aIsStar && !bIsStar:\n\t\t\treturn -1', 'SrcVary.v'),
+    ('internal/varymatcher.go', 'return a.ReceivedAt.Compare(b.ReceivedAt)', 'return b.ReceivedAt.Compare(a.ReceivedAt)', 'SrcVary.v'),
+    ('internal/varymatcher.go', '\tslices.SortFunc(entries, func', '\tentries = slices.Clone(entries)\n\tslices.SortFunc(entries, func', 'SrcVary.v'),
 ]
 def main():
     binp = os.path.join(vlib.BUILD, 'translate-bin')
